@@ -69,6 +69,13 @@ theorem sep_rejoin (d : Char) (f : Frag) (hf : Frag.Clean f) (hne : f ≠ .nil) 
   · rw [← render_join, hj]
   · rw [hb, List.map_map]; rfl
 
+/-- non-vacuity: ` a = [=] ` with `=`: segments ` a ` and ` [=] `, pieces `a` and `[=]` -/
+example :
+    let f : Frag := .atom ' ' (.atom 'a' (.atom ' ' (.atom '=' (.atom ' ' (.group .sq (.atom '=' .nil) (.atom ' ' .nil))))))
+    let segs : List Str := [[' ', 'a', ' '], [' ', '[', '=', ']', ' ']]
+    Frag.Clean f ∧ f ≠ .nil ∧ Str.join ['='] segs = f.render ∧ breakSeparator f.render ['='] = .ok (segs.map strip) := by
+  decide
+
 /-- No piece is unbalanced: every piece is the text of a clean fragment. -/
 theorem sep_balanced (d : Char) (f : Frag) (hf : Frag.Clean f) (pieces : List Str)
     (h : breakSeparator f.render [d] = .ok pieces) :
@@ -172,6 +179,22 @@ example :
       = .ok (['a', '.', 'b'], [(['k'], ['"', '1', ',', '2', '"']), (['m'], ['[', 'x', ',', 'y', ']'])], args.render) := by
   decide
 
+/-- With arbitrary simple strings in the arguments (brackets, the other quote inside): path and `join_args` are still exact,
+    and the argument pieces are the texts of fragments that make up `args` when joined with top-level commas — arguments
+    can be merged (`"(", x` stays one piece), they are never cut inside a group or a string. -/
+theorem decorator_dirty (path : Str) (args : Frag) (hp : ∀ x ∈ path, x ≠ '(') (ha : Frag.Simple args) (hne : args ≠ .nil) :
+    ∃ fs : List Frag, Frag.join ',' fs = args ∧ (∀ p ∈ fs, Frag.Simple p) ∧
+      decoParse (path ++ '(' :: (args.render ++ [')']))
+        = .ok (path, decoArgs (fs.map fun p => strip p.render), args.render) :=
+  decoParse_simple path args hp ha hne
+
+/-- non-vacuity, and the merge on the current code: `a.b("(", x)` → `{'0': '"(", x'}` -/
+example :
+    let args : Frag := .str .dq ['('] (.atom ',' (.atom ' ' (.atom 'x' .nil)))
+    Frag.Simple args ∧ decoParse (['a', '.', 'b'] ++ '(' :: (args.render ++ [')']))
+      = .ok (['a', '.', 'b'], [(Str.natToDec 0, ['"', '(', '"', ',', ' ', 'x'])], args.render) := by
+  decide +kernel
+
 /-- Each stored (key, value) reassembles to its argument piece: `label=value` when the piece contains `=`, else the piece
     itself under its position. -/
 theorem decorator_reassemble (i : Nat) (arg : Str) :
@@ -203,6 +226,15 @@ theorem decorator_positional_counterexample : ¬ decorator_positional_statement 
 theorem param_plain (ts : List Frag) (nm : Frag) (h : ∀ t ∈ ts ++ [nm], ParamToken t) :
     paramParse (Frag.join ' ' (ts ++ [nm])).render = .ok (Str.join [' '] (ts.map Frag.render), nm.render, []) :=
   paramParse_plain ts nm h
+
+/-- non-vacuity: `unsigned long n` -/
+example :
+    let t1 : Frag := .atom 'u' (.atom 'n' (.atom 's' (.atom 'i' (.atom 'g' (.atom 'n' (.atom 'e' (.atom 'd' .nil)))))))
+    let t2 : Frag := .atom 'l' (.atom 'o' (.atom 'n' (.atom 'g' .nil)))
+    (∀ t ∈ [t1, t2] ++ [Frag.atom 'n' .nil], ParamToken t) ∧
+      paramParse (Frag.join ' ' ([t1, t2] ++ [Frag.atom 'n' .nil])).render
+        = .ok (['u', 'n', 's', 'i', 'g', 'n', 'e', 'd', ' ', 'l', 'o', 'n', 'g'], ['n'], []) := by
+  decide
 
 /-- `type… name = default` where the default is a clean fragment without a top-level `=`: the three parts
     (the default stripped of surrounding blanks). -/
